@@ -12,7 +12,7 @@ S_WAIT_CER, C_WAIT_CEA, OPEN, CLOSING, CLOSED, DEAD = "S-Wait-CER", "C-Wait-CEA"
 
 EVENTS = ["CER", "CER-other-host", "CER-odd-flags", "CEA", "CEA-other-host", "DWR", "DWR-other-host", "DWA", "DWA-other-host",
           "DPR", "DPR-bad-cause", "DPA", "APP-req", "APP-req-misaddressed", "APP-ans", "local-stop", "local-stop+pending-inbound",
-          "peer-disconnect", "idle"]
+          "peer-disconnect", "idle", "CEA-duplicate", "DWA-echo", "DWA-echo-twice"]
 
 
 def slow_ticker(seconds=0.005):
@@ -91,6 +91,8 @@ def model_step(state, ev, role):
     if state == C_WAIT_CEA:
         if ev == "CEA":
             return r(OPEN)
+        if ev == "CEA-duplicate":
+            return r(OPEN)                        # it is the valid CEA for the CER that was sent
         if ev in ("CEA-other-host", "local-stop", "local-stop+pending-inbound", "idle"):
             return r(C_WAIT_CEA, hard=False, not_open=True)
         return r(CLOSED)                      # H5 (anything but a CEA) and H4 (peer disconnect)
@@ -203,6 +205,15 @@ class Run:
         data, (h, e) = event_bytes(ev, self.ids)
         if ev == "CEA" and self.model == C_WAIT_CEA:
             data = R.encode(N.cea(hbh=self.cer_ids[0], e2e=self.cer_ids[1]))
+        # answers that echo the identifiers of requests the node itself has sent (a duplicated or retransmitted answer)
+        if ev == "CEA-duplicate":
+            ids_ = getattr(self, "cer_ids", None) or (h, e)
+            data = R.encode(N.cea(hbh=ids_[0], e2e=ids_[1]))
+        if ev in ("DWA-echo", "DWA-echo-twice"):
+            dwrs = [m for m in sc.emitted_msgs if N.name_of(m) == "DWR"]
+            ids_ = (dwrs[-1].hbh, dwrs[-1].e2e) if dwrs else (h, e)
+            one = R.encode(N.dwa(hbh=ids_[0], e2e=ids_[1]))
+            data = one * (2 if ev.endswith("twice") else 1)
         err = None
         t_before = s.now
         if data is not None:
